@@ -65,6 +65,11 @@ pub struct ReplayFile {
     pub minimised: bool,
     pub tape_len_before: usize,
     pub tape: Tape,
+    /// set for violations of a batch-level oracle: replay re-runs `batch_runs` runs from `batch_seed`
+    #[serde(default)]
+    pub batch_runs: Option<u64>,
+    #[serde(default)]
+    pub batch_seed: Option<u64>,
 }
 
 pub fn run_seed(base_seed: u64, family: &str, index: u64) -> u64 {
@@ -228,6 +233,7 @@ pub fn run_property(
     let mut per_family = Vec::new();
     let mut found: Vec<Found> = Vec::new();
     let mut harness_errors: Vec<String> = Vec::new();
+    let mut batch_found: Vec<(usize, u64, Violation)> = Vec::new();
 
     for (fi, fam) in families.iter().enumerate() {
         let n = ((fam.budget(tier) as f64) * opts.budget_scale).ceil().max(1.0) as u64;
@@ -265,6 +271,7 @@ pub fn run_property(
         results.sort_by_key(|r| r.0);
         let mut f_nontrivial = 0u64;
         let mut f_shapes = BTreeSet::new();
+        let mut f_probes: BTreeMap<String, u64> = BTreeMap::new();
         for (i, seed, r) in results {
             match r {
                 Err(e) => harness_errors.push(format!("family={} index={} seed={}: {}", fam.family(), i, seed, e)),
@@ -286,6 +293,7 @@ pub fn run_property(
                         *agg.faults.entry(k).or_insert(0) += v;
                     }
                     for (k, v) in o.probes {
+                        *f_probes.entry(k.clone()).or_insert(0) += v;
                         *agg.probes.entry(k).or_insert(0) += v;
                     }
                     for p in o.sut_panics {
@@ -304,6 +312,11 @@ pub fn run_property(
                         }
                     }
                 }
+            }
+        }
+        for v in fam.batch_oracle(&f_probes, n) {
+            if v.property == property {
+                batch_found.push((fi, n, v));
             }
         }
         per_family.push(json!({
@@ -350,6 +363,36 @@ pub fn run_property(
         violation_lines.push(format!("VIOLATION property={} replay={}", property, path.display()));
     }
 
+    for (fi, n, v) in &batch_found {
+        if let Some(k) = match_known(&known, v) {
+            let id = format!("{} {}", k.oracle, k.key_contains.join(","));
+            known_hits.entry(id).or_insert((0, k.what.clone())).0 += 1;
+            continue;
+        }
+        n_classes += 1;
+        let fam = families[*fi];
+        let rf = ReplayFile {
+            property: v.property.clone(),
+            family: fam.family().to_string(),
+            tier,
+            seed: opts.base_seed,
+            run_index: u64::MAX,
+            oracle: v.oracle.clone(),
+            key: v.key.clone(),
+            message: v.message.clone(),
+            digest: 0,
+            minimised: false,
+            tape_len_before: 0,
+            tape: Tape::default(),
+            batch_runs: Some(*n),
+            batch_seed: Some(opts.base_seed),
+        };
+        let h = crate::hash_str(&format!("{}{}", rf.oracle, rf.key));
+        let path = Path::new(VERIF_ROOT).join("replays").join(format!("{}-batch{}-{:08x}.json", v.property, opts.base_seed, h as u32));
+        std::fs::write(&path, serde_json::to_string(&rf).unwrap()).ok();
+        println!("violation (batch oracle): oracle={} key={} family={}\n  {}", v.oracle, v.key, fam.family(), v.message);
+        violation_lines.push(format!("VIOLATION property={} replay={}", property, path.display()));
+    }
     for (id, (n, what)) in &known_hits {
         println!("KNOWN-FINDING: property={} {} ({} runs) {}", property, id, n, what);
     }
@@ -479,6 +522,8 @@ fn make_replay(
         minimised,
         tape_len_before: before,
         tape,
+        batch_runs: None,
+        batch_seed: None,
     };
     let h = crate::hash_str(&format!("{}{}", rf.oracle, rf.key));
     let path = Path::new(VERIF_ROOT)
@@ -606,6 +651,48 @@ pub fn replay_file(path: &str, families: &[&dyn Check], quiet: bool) -> i32 {
             return 2;
         }
     };
+    if let (Some(n), Some(bs)) = (rf.batch_runs, rf.batch_seed) {
+        // batch-level oracle: re-run the whole family batch and recompute the statistic
+        let threads = BatchOptions::from_env().threads;
+        let next = AtomicU64::new(0);
+        let probes: Mutex<BTreeMap<String, u64>> = Mutex::new(BTreeMap::new());
+        std::thread::scope(|s| {
+            for _ in 0..threads {
+                s.spawn(|| {
+                    let mut local: BTreeMap<String, u64> = BTreeMap::new();
+                    loop {
+                        let i = next.fetch_add(1, Ordering::Relaxed);
+                        if i >= n {
+                            break;
+                        }
+                        let mut ch = Chooser::generate(run_seed(bs, fam.family(), i));
+                        if let Ok(o) = run_once(fam, &mut ch, rf.tier) {
+                            for (k, v) in o.probes {
+                                *local.entry(k).or_insert(0) += v;
+                            }
+                        }
+                    }
+                    let mut g = probes.lock().unwrap();
+                    for (k, v) in local {
+                        *g.entry(k).or_insert(0) += v;
+                    }
+                });
+            }
+        });
+        let probes = probes.into_inner().unwrap();
+        let vs = fam.batch_oracle(&probes, n);
+        return if let Some(v) = vs.iter().find(|v| v.oracle == rf.oracle) {
+            println!("REPRODUCED oracle={} digest_match=true key={}", v.oracle, v.key);
+            if !quiet {
+                println!("  {}", v.message);
+                println!("VIOLATION property={} replay={}", rf.property, path);
+            }
+            1
+        } else {
+            println!("NOT-REPRODUCED oracle={}", rf.oracle);
+            0
+        };
+    }
     let mut ch = Chooser::replay(rf.seed, rf.tape.clone());
     match run_once(fam, &mut ch, rf.tier) {
         Err(e) => {
